@@ -1,0 +1,17 @@
+//go:build verif
+
+package js_lexer
+
+// C01 (JSX text is the text): a numeric character reference is `&#` digits `;` or `&#x` hex digits `;` and denotes a
+// Unicode code point; anything else is literal text. Every UTF-16 code unit appended by decodeJSXEntities comes from a
+// code point in [0, 0x10FFFF]: a sign accepted by the number parser (`&#-5;`) or a value beyond the Unicode range
+// (`&#x110000;`) must not be decoded (uint16(-5) is U+FFFB; 0x110000 minus 0x10000 gives the surrogates of U+10000).
+//@ guarded numeric-entity-is-a-code-point C01: func=decodeJSXEntities ; in=js_lexer ; site=convert *Parse*(*)#0 ; scenario=jsx_signed_numeric_entity ; require=true:*#0<=1114111
+// ... and the digits are parsed by a function that accepts no sign (strconv.ParseInt accepts "+65" and "-5").
+//@ flow numeric-entity-has-no-sign C01: func=decodeJSXEntities ; in=js_lexer ; site=call ParseUint ; scenario=jsx_signed_numeric_entity ; argpath=2:32
+
+// C01 (tagged templates): in a template the cooked value of a part that contains a NotEscapeSequence (`\0` followed by a
+// digit, `\1`..`\9`, an out-of-range `\u{...}`) is undefined (ECMA-262 12.9.6, TV); only string literals give legacy
+// octal escapes a value (and record them, to be rejected in strict code). tryToDecodeEscapeSequences is used for both,
+// told apart by reportErrors: the "this was a legacy octal escape" bookkeeping is reached only for string literals.
+//@ guarded legacy-octal-escapes-have-no-cooked-value-in-templates C01: func=(*Lexer).tryToDecodeEscapeSequences ; in=js_lexer ; site=store Lexer.LegacyOctalLoc ; scenario=tagged_template_invalid_escape_cooked ; require=true:reportErrors
